@@ -15,6 +15,8 @@ import YowsupVerif.Drv.Routing
 import YowsupVerif.Drv.Life
 import YowsupVerif.Drv.PreKeys
 import YowsupVerif.Drv.Trust
+import YowsupVerif.Drv.E2E
+import YowsupVerif.Drv.Payload
 open Yow Yow.Drv
 
 structure DrvState where
@@ -26,12 +28,15 @@ structure DrvState where
   life : Yow.Life.St := {}
   pk : PkSt := {}
   trust : Yow.Trust.St := Yow.Trust.init
+  e2e : Yow.E2E.Sys := {}
 
 def step (s : DrvState) (line : String) : DrvState × String :=
   match (line.splitOn " ").filter (· ≠ "") with
   | "seg" :: rest => let r := segStep s.seg rest; ({ s with seg := r.1 }, r.2)
   | "coder" :: rest => (s, coderStep rest)
   | "iq" :: rest => let r := iqStep s.iq rest; ({ s with iq := r.1 }, r.2)
+  | "pl" :: rest => (s, payloadStep rest)
+  | "e2e" :: rest => let r := e2eStep s.e2e rest; ({ s with e2e := r.1 }, r.2)
   | "trust" :: rest => let r := trustStep s.trust rest; ({ s with trust := r.1 }, r.2)
   | "pk" :: rest => let r := pkStep s.pk rest; ({ s with pk := r.1 }, r.2)
   | "life" :: rest => let r := lifeStep s.life rest; ({ s with life := r.1 }, r.2)
